@@ -39,6 +39,21 @@ def pathSet (sep assign : Byte) (text : List Byte) : Path × Nat :=
   ({ base := text ++ [0], off := 0, len := r.1 + (if r.2.2.2 then 0 else 1),
      first := if r.2.2.1 > 255 then 0 else r.2.2.1, sep := sep, assign := assign }, r.2.1)
 
+/-- `mpt_path_set(path, val, n)` with an explicit length `n ≤ strlen(val)`: only the first `n` characters are
+    scanned, the byte behind them takes the place of the terminator -/
+def pathSetN (sep assign : Byte) (text : List Byte) (n : Nat) : Path × Nat :=
+  let r := setScanN sep assign (text.take n) 0 0 0
+  ({ base := text ++ [0], off := 0, len := r.1 + (if r.2.2.2 then 0 else 1),
+     first := if r.2.2.1 > 255 then 0 else r.2.2.1, sep := sep, assign := assign }, r.2.1)
+where
+  /-- the scan loop without the implicit terminator -/
+  setScanN (sep assign : Byte) : List Byte → Nat → Nat → Nat → Nat × Nat × Nat × Bool
+  | [], plen, elem, first => (plen, elem, first, false)
+  | c :: cs, plen, elem, first =>
+    if c = assign then (plen + 1, elem + 1, first, true)
+    else if c = sep then setScanN sep assign cs (plen + 1) (elem + 1) (if elem = 0 then plen else first)
+    else setScanN sep assign cs (plen + 1) elem first
+
 /-- `memchr(data, sep, n)` -/
 def memchr (data : List Byte) (c : Byte) (n : Nat) : Option Nat :=
   let i := (data.take n).findIdx (· = c)
